@@ -336,6 +336,7 @@ class Summary:
     alloc_comps: Dict[tuple, tuple] = field(default_factory=dict)  # accumulator identity -> the comprehension it was read as
     inlined: List[str] = field(default_factory=list)  # helpers whose bodies were spliced into this summary (transitively)
     rec_types: Dict[tuple, object] = field(default_factory=dict)  # terms known to be NamedTuple records (class info)
+    unpacked: Dict[tuple, int] = field(default_factory=dict)  # value term -> number of names it is unpacked into (an arity check)
 
     def of(self, kind) -> List[Event]:
         return [e for e in self.events if e.kind == kind]
@@ -395,6 +396,7 @@ class Evaluator:
         self.list_defs: Dict[str, tuple] = {}  # local bound to a list display: (loop stack, live) at the binding
         self.dict_defs: Dict[str, tuple] = {}
         self.alloc_comps: Dict[tuple, tuple] = {}
+        self.unpacked: Dict[tuple, int] = {}
         self.rec_types: Dict[tuple, ClassInfo] = {}  # opaque values (loop elements, parameters) known to be NamedTuple records
 
     # ------------------------------------------------------------------ plumbing
@@ -493,7 +495,7 @@ class Evaluator:
             self._normalise_accumulators()
         return Summary(self.qual, self.module, fn, params, defaults, annotations, self.events, self.loops,
                        self.tries, self.env, fall, self.lambdas, self.nested, self.is_generator, kwarg, vararg,
-                       self.alloc_comps, list(dict.fromkeys(self.inlined)), dict(self.rec_types))
+                       self.alloc_comps, list(dict.fromkeys(self.inlined)), dict(self.rec_types), dict(self.unpacked))
 
     def _normalise_accumulators(self):
         """`out = []` filled by exactly one `out.append(v)` in a for loop and not otherwise touched until the loop
@@ -765,6 +767,8 @@ class Evaluator:
         if isinstance(target, ast.Name):
             self.env[target.id] = val
         elif isinstance(target, (ast.Tuple, ast.List)):
+            if not any(isinstance(e, ast.Starred) for e in target.elts) and val[0] not in ("tuple", "list"):
+                self.unpacked.setdefault(val, len(target.elts))  # `a, b = v` fails unless v has exactly two items
             if val[0] in ("call", "ite") and self._is_record(val):
                 parts = [self._record_get(val, index=i) for i in range(len(target.elts))]
                 if all(p_ is not None for p_ in parts) and self._record_get(val, index=len(target.elts)) is None:
@@ -2097,6 +2101,8 @@ class Evaluator:
         for t_, ci_ in cs.rec_types.items():
             if t_[0] == "tuple":
                 self.rec_types.setdefault(inst(t_), ci_)
+        for t_, n_ in cs.unpacked.items():
+            self.unpacked.setdefault(inst(t_), n_)
         return cs, inst, idmap, qual
 
     def _fold_records(self, t):
